@@ -67,6 +67,12 @@ fn build_section(s: &Section, seed: u8, block_version: u32) -> AuxPow {
             let ins: Vec<TxIn> = (0..300u32).map(|k| { let mut i = TxIn::spend([0x79; 32], k); i.witness = vec![vec![k as u8; (k % 5) as usize]; (k % 4) as usize]; i }).collect();
             Tx { version: 2, segwit: true, inputs: ins, outputs: vec![TxOut { value: 25, script: script::witness(1, &[seed; 32]) }], locktime: 0, wide: 0 }
         }
+        // witness item length sweep: the length of the parent coinbase's (second) witness item is carried in `chain_branch`
+        12 => {
+            let mut i = TxIn::coinbase(vec![3, 9, 9, 9]);
+            i.witness = vec![vec![0u8; 32], vec![0xc7; s.chain_branch], vec![1, 2, 3]];
+            Tx { version: 2, segwit: true, inputs: vec![i], outputs: vec![TxOut { value: 25, script: script::witness(0, &script::h20(seed)) }], locktime: 0, wide: 0 }
+        }
         _ => {
             let mut i = TxIn::coinbase(vec![3, 9, 9, 9]);
             i.witness = vec![vec![0u8; 32], vec![], vec![1, 2, 3]];
@@ -79,7 +85,7 @@ fn build_section(s: &Section, seed: u8, block_version: u32) -> AuxPow {
         parent_hash: hash_n(seed, 999),
         coinbase_branch: (0..s.cb_branch).map(|i| hash_n(seed, i)).collect(),
         coinbase_mask: s.mask,
-        chain_branch: (0..if s.parent_cb == 5 { 0 } else { s.chain_branch }).map(|i| hash_n(seed.wrapping_add(40), i)).collect(),
+        chain_branch: (0..if s.parent_cb == 5 || s.parent_cb == 12 { 0 } else { s.chain_branch }).map(|i| hash_n(seed.wrapping_add(40), i)).collect(),
         chain_mask: s.mask.rotate_left(3),
         branch_wide: (s.wide & 0xff) as u8, parent_header: Header { version: match s.parent_version { 0 => 0x20000000, 1 => block_version, _ => 1 }, prev: hash_n(seed, 500), merkle: hash_n(seed, 501), time: 1_500_000_000, bits: 0x1b00ffff, nonce: 0xdeadbeef },
     }
@@ -160,6 +166,11 @@ pub fn run() -> Report {
             for (cb, ch) in [(0usize, 0usize), (2, 1)] {
                 cases.push(Case { coin: cn, versions: vec![thr, thr + 1, thr - 1, thr], section: Section { parent_cb, cb_branch: cb, chain_branch: ch, mask: 1, parent_version: 0, wide: 0 }, label: "parent-transaction-shapes".into() });
             }
+        }
+        // segwit parent coinbase with a witness item of every length around the CompactSize widths and the powers of two a
+        // chunked skip is likely to use
+        for l in [0usize, 1, 32, 72, 252, 253, 255, 256, 257, 300, 511, 512, 513, 768, 1000, 1023, 1024, 1025, 4095, 4096, 4097, 8192, 65_535, 65_536, 65_537] {
+            cases.push(Case { coin: cn, versions: vec![thr, thr + 1, thr - 1], section: Section { parent_cb: 12, cb_branch: 1, chain_branch: l, mask: 1, parent_version: 0, wide: 0 }, label: format!("parent-coinbase-witness-item-of-{}-bytes", l) });
         }
         // a parent coinbase far larger than any buffer: 70 000-byte scriptSig, 300 outputs
         cases.push(Case { coin: cn, versions: vec![thr, thr - 1, thr + 5], section: Section { parent_cb: 3, cb_branch: 3, chain_branch: 2, mask: 7, parent_version: 0, wide: 0 }, label: "huge-parent-coinbase".into() });
